@@ -449,7 +449,7 @@ fn has_object(t: &Tree) -> bool {
 
 /// the document with every repeated key resolved as readers resolve it: the last member of that name stays (in the
 /// place of the first)
-fn last_wins(t: &Tree) -> Tree {
+pub fn last_wins(t: &Tree) -> Tree {
     match t {
         Tree::Arr(xs) => Tree::Arr(xs.iter().map(last_wins).collect()),
         Tree::Obj(ms) => {
